@@ -8,6 +8,11 @@ from .base import Prop, Ground
 
 # (program, flags, inputs, expected stdout) -- expectations worked out by hand from documents/specs/Structures.md
 CASES = [
+    # the context variable inside a while body and inside a named function (Structures.md states the rule for `if` -- n is the
+    # popped condition -- and for lambdas -- n is the argument / the list of arguments; the while and function sections are
+    # silent, the same rules are taken as the reference): n is the value the condition left, not its truth value; n in a
+    # function is the arguments as they were at the call, whatever the body has done to its stack since
+    ("5 {:|n,1-}", "", [], "5\n4\n3\n2\n1\n"), ("⟨7|8⟩ {:|n, 0}", "O", [], "⟨ 7 | 8 ⟩\n"), ("@f:2|*n∑; 3 4 @f;", "W", [], "⟨ 12 | 7 ⟩\n"), ("@f:2|+nL; 3 4 @f;", "", [], "2\n"), ("@f:1|d n; 6 @f;", "W", [], "⟨ 12 | ⟨ 6 ⟩ ⟩\n"),
     ("1 2+", "", [], "3\n"), ("3(n)", "W", [], "⟨ 1 | 2 | 3 ⟩\n"), ("5 2>[`yes`|`no`]", "", [], "yes\n"), ("1 2>[`yes`|`no`]", "", [], "no\n"),
     ("0 {:3<|›}", "", [], "3\n"), ("3 λ2*;†", "", [], "6\n"), ("3ɾƛ2*;", "", [], "⟨ 2 | 4 | 6 ⟩\n"), ("5 ⟨1+|2+⟩", "", [], "⟨ 6 | 7 ⟩\n"),
     ("1 2 3 ⟨+|+⟩", "", [], "⟨ 5 | 5 ⟩\n"), ("5 ₌+d", "W", [7, 8, 9], "⟨ 12 | 10 ⟩\n"), ("₌+-", "", [7, 8, 9], "-2\n"), ("3 4 ₍+*", "", [], "⟨ 7 | 12 ⟩\n"),
